@@ -96,12 +96,13 @@ def pure_external(name):
 
 
 class Event:
-    __slots__ = ("site", "callee", "args", "facts", "dest_ty", "at", "inlined", "ret", "visits", "dest")
+    __slots__ = ("site", "callee", "args", "facts", "dest_ty", "at", "inlined", "ret", "visits", "dest", "argvals")
 
     def __init__(self, site, callee, args, facts, at, inlined):
         self.site, self.callee, self.args, self.facts = site, callee, list(args), facts
         self.at, self.inlined, self.ret, self.visits = at, inlined, None, 1
         self.dest = None
+        self.argvals = None
 
     def __repr__(self):
         return "Event(%s @%s args=%s)" % (self.callee, self.at, [show(a) for a in self.args])
@@ -141,6 +142,7 @@ class Engine:
         self.events = {}
         self.phi_ops = {}
         self.phi_gate = {}          # phi -> (condition term, value if true, value if false)
+        self._promoted = {}
         self.nonfinal = 0           # >0 while some frame on the stack is in its fixpoint-iteration pass
         self.edge_hook = None       # f(body, src_bb, tgt_bb, state, fk) on every propagated CFG edge
         self.visited_fns = set()
@@ -444,6 +446,8 @@ class Engine:
                 b = int.from_bytes(raw[i * w:(i + 1) * w], "little")
                 vals.append(C(ek, wrap_int(ek, b) if e["k"] == "int" else b))
             return ('agg', 'array', 0, tuple(vals))
+        if "item" in c and c.get("promoted") is not None and k == "ref":
+            return ('ref_t', ('promoted', c["item"], c["promoted"]))
         if "item" in c:
             return ('sym', ('constitem', c["item"], c.get("promoted")))
         if "slice" in c and k == "ref" and ty["to"]["k"] == "str":
@@ -523,6 +527,19 @@ class Engine:
         t = cur[1]
         if self.access_hook is not None and not self.nonfinal: self.note_access('read', t, st)
         if t in st.heap: return st.heap[t]
+        r0 = t
+        while r0[0] in ('fld', 'idx', 'dc'): r0 = r0[1]
+        if r0[0] == 'promoted':
+            v = self.promoted_value(r0)
+            if v is not None:
+                chain = []; r = t
+                while r != r0:
+                    chain.append(r); r = r[1]
+                for c in reversed(chain):
+                    if c[0] == 'fld': v = self.project(v, ('f', c[2]))
+                    elif c[0] == 'dc': v = self.project(v, ('dc', c[2]))
+                    else: v = self.project(v, ('i', c[2][2]) if is_const(c[2]) else ('ix', c[2]))
+                return v
         if st.heap and t[0] in ('fld', 'idx', 'dc'):
             # a stored aggregate at a prefix of the place: project it
             chain = []; r = t
@@ -551,6 +568,34 @@ class Engine:
         rest = [a if a is not None else ('p', names[i + 1]) for i, a in enumerate(args)]
         rest += [('p', n) for n in names[1 + len(rest):]]
         return self.run_body(body, [a0] + rest, st, fk=((path, -1),), stack=(path,))
+
+    def promoted_value(self, root):
+        """value of a promoted constant (`&CONST_EXPR` lifted out of a body): its MIR body is
+        evaluated symbolically once (no inputs)"""
+        if root in self._promoted: return self._promoted[root]
+        self._promoted[root] = None
+        b = self.crate.body(root[1])
+        try:
+            pb = b.promoted[root[2]] if b is not None else None
+            if pb is not None:
+                saved = (self.loc, self.nonfinal)
+                self.nonfinal += 1          # no hooks, no final pass for constant evaluation
+                try:
+                    r = self.run_body(pb, [], State(), fk=(('promoted', root[1], root[2]),), stack=("promoted:%s:%s" % (root[1], root[2]),))
+                finally:
+                    self.nonfinal -= 1; self.loc = saved[0]
+                if r.returns:
+                    v = r.ret
+                    # the promoted body returns a reference to its own temporary: the constant
+                    # operand denotes that reference, so the place behind it holds the pointee
+                    if v[0] == 'ref':
+                        v = self.read_cur(r.state, ('local', v[1], v[2], v[3]))
+                    elif v[0] == 'ref_t':
+                        v = self.read_cur(r.state, ('term', v[1]))
+                    self._promoted[root] = v
+        except Exception:
+            pass
+        return self._promoted[root]
 
     def note_access(self, kind, t, st):
         r = t
@@ -869,6 +914,8 @@ class Engine:
         diverges = t["target"] is None
         ev = self.record_event(site, name, args, st.facts, t["at"], func)
         ev.dest = t["dest"]
+        # values behind reference arguments at call time (before any havoc by the callee)
+        ev.argvals = [self.read_cur(st, ('local', a[1], a[2], a[3])) if a[0] == 'ref' else None for a in args]
         if diverges:
             return []
         ret = None
@@ -884,6 +931,13 @@ class Engine:
         model = self.models.get(name) if name else None
         if model is not None:
             ret = model(self, st, args, site)
+        elif name in ("std::intrinsics::discriminant_value", "core::intrinsics::discriminant_value") and args:
+            a = args[0]
+            if a[0] == 'ref': v = self.read_cur(st, ('local', a[1], a[2], a[3]))
+            elif a[0] == 'ref_t': v = self.read_cur(st, ('term', a[1]))
+            else: v = ('deref', a)
+            d = self.discr_of(v, 'isize')
+            ret = d
         if ret is None and name and cbody is not None and name not in self.opaque and name not in stack \
                 and len(stack) < self.max_depth and (self.inline_pred is None or self.inline_pred(name, len(stack))):
             sub = self.run_body(cbody, cargs, st, site, stack + (name,))
